@@ -740,3 +740,21 @@ def _timedur(env, ts, t, m, dur, res):
     clocklike = Or(unit_is(u, "hours"), unit_is(u, "minutes"))
     return [("interval-from-date", ["C08"], And(same_opt_time(fld(res, "t_from"), t), Not(rtn))),
             ("ends-n-units-later", ["C08"], If(clocklike, end_clock, end_date))]
+
+
+# ------------------------------------------------------------------ canaries (deliberately FALSE contracts)
+# Run on every check: the verifier must refute them and the counter-model must replay on the real
+# code; otherwise the engine is broken (exit 3).  They are never part of a property's obligations.
+@spec("canary/ruleTomorrow")
+def _canary_tomorrow(env, ts, m, res):
+    return [("canary-ordinal+2", [], And(is_date(res), Eq(ord_of(res), ts_ord(ts) + 2)))]
+
+
+@spec("canary/ruleHHOClock")
+def _canary_oclock(env, ts, m, res):
+    return [("canary-hour-is-never-23", [], And(kind(res) == "Time", Not(field_is(res, "hour", 23))))]
+
+
+@spec("canary/ruleDateDate")
+def _canary_datedate(env, ts, d1, m, d2, res):
+    return [("canary-always-an-interval", [], res is not None)]
